@@ -76,9 +76,20 @@ def eval_single(case):
     try:
         cu = c(u)
         case["_changed"] = cu != u
-        if _returned_unchanged(u, case["options"]) or _returned_unchanged(cu, case["options"]):
+        ru, rcu = _returned_unchanged(u, case["options"]), _returned_unchanged(cu, case["options"])
+        if ru and rcu:
             # the (redirection-resolved) URL cannot be parsed and normalize_url hands its input back as is: there is no normalized form to
             # compare ("returned unchanged" is C05's clause; the same restriction as the pre-step law of C04)
+            return out
+        if ru != rcu:
+            # one of the two could be normalised, the other was handed back raw. When escaping is what makes a garbage redirect target parseable
+            # (a raw ']' in a cache tail) there is nothing to state; when only the whitespace / control characters *around* u make the difference
+            # (u without them is normalised fine), the same URL got two answers
+            cl = _EDGES.sub("", u)
+            if cl == u or _returned_unchanged(cl, case["options"]):
+                return out
+            out.append(("C03/normalize-after-canonicalize", "normalize_url(canonicalize_url(%r)=%r)=%r but normalize_url(u)=%r: only one of the two could be normalised (%r)" % (
+                u, cu, n(cu), n(u), case["options"])))
             return out
         if n(cu) != n(u):
             out.append(("C03/normalize-after-canonicalize", "normalize_url(canonicalize_url(%r)=%r)=%r but normalize_url(u)=%r (%r)" % (u, cu, n(cu), n(u), case["options"])))
@@ -316,6 +327,14 @@ def _corner_shapes(acc, shard, nshards, seed, tier):
             continue
         u = tmpl.replace("%s", ent)
         acc.check({"kind": "single", "u": u, "options": o}, lambda c: c.pop("_changed", True), ["corner:amp-entity-spelling"])
+    # whitespace / control characters around a redirecting URL (canonicalize_url trims first, the other two infer the redirection first)
+    for pad, b, o in itertools.product([" ", "\t", "\u00a0", "\u2003", "\u3000", "\u2028", "\u205f", "\x00", "\x1f", "\x7f", "\x9f"],
+                                       ["http://site.com/login?id=7&next=/rel/path", "https://h.com/r?redirect_to=%2Fnews", "http://site.com/out?url=http%3A%2F%2Ftarget.org%2Fp"], optsets):
+        idx += 1
+        if idx % nshards != shard:
+            continue
+        for u in (pad + b, b + pad, pad + " " + b + pad):
+            acc.check({"kind": "single", "u": u, "options": o}, lambda c: c.pop("_changed", True), ["corner:junk-around-redirecting-url"])
     # every scheme with every port spelling (own default, another scheme's default, empty, zero-padded): the three functions must agree on which
     # ports are droppable, and the platform routes must be recognized behind any port spelling
     for scheme, port, host, tail, o in itertools.product(SCHEME_FORMS, PORT_FORMS, ["h.com", "facebook.com", "www.youtube.com"],
